@@ -173,13 +173,25 @@ def run_conv(case, res):
         h = lambda x: lam * float(np.abs(x).sum())
         prox = lambda x, u: np.sign(x) * np.maximum(np.abs(x) - lam * u, 0)
         contracts.drain()
+        g2 = engine.rng_for(case["seed"], NUM, k, 7)   # own stream: the inputs above stay what they were
         try:
             with engine.alarm(60):
-                pgd(xopt, g, H, P, Delta)
+                # the routines' own Dykstra budget / tolerance (dykstra.max_iters, dykstra.d_tol: every documented-valid value with at
+                # least one sweep) and the S-FISTA knobs (func_tol.*, sfista.max_iters_scaling) are part of the input: a third of the
+                # calls use non-default ones, down to a single sweep, where only "ball projected last" keeps the step in the region
+                dk = {}
+                if g2.random() < 0.35:
+                    dk = dict(d_max_iters=int(gen.pick(g2, [1, 2, 3, 10, 1000])), d_tol=float(10.0 ** g2.uniform(-13, -4)))
+                    st["conv_nondefault_dykstra"] = st.get("conv_nondefault_dykstra", 0) + 1
+                pgd(xopt, g, H, P, Delta, **dk)
                 st["pgd_direct_calls"] = st.get("pgd_direct_calls", 0) + 1
-                cgeom(xopt, float(rng.normal()), g.copy(), P, Delta)
+                cgeom(xopt, float(rng.normal()), g.copy(), P, Delta, **dk)
                 st["cgeom_direct_calls"] = st.get("cgeom_direct_calls", 0) + 1
-                sfista(xopt, g, H, P, Delta, h, lam * np.sqrt(n), prox, func_tol=1e-3 * Delta, max_iters=300)
+                sk = dict(func_tol=1e-3 * Delta, max_iters=300)
+                if g2.random() < 0.35:
+                    sk = dict(func_tol=float(10.0 ** g2.uniform(-6, -1)) * Delta, max_iters=int(gen.pick(g2, [1, 5, 50, 500])),
+                              sfista_iters_scale=float(g2.uniform(1.0, 4.0)))
+                sfista(xopt, g, H, P, Delta, h, lam * np.sqrt(n), prox, **sk, **dk)
                 st["sfista_direct_calls"] = st.get("sfista_direct_calls", 0) + 1
         except engine.CaseTimeout:
             st["conv_direct_timeouts"] = st.get("conv_direct_timeouts", 0) + 1
